@@ -9,7 +9,7 @@ def run_dlx(case):
     from solvor.dlx import solve_exact_cover
     M = case["matrix"]
     prim = case["prim"]
-    ncols = len(M[0])
+    ncols = len(M[0]) if M else 0
     names = None
     if case.get("named"):
         names = NAMES[:ncols]
@@ -31,7 +31,10 @@ def run_dlx(case):
             sol = r.solution
             if sol is None:
                 sols = []
-            elif cfg["find_all"] and isinstance(sol, list):
+            elif cfg["find_all"]:
+                if not isinstance(sol, list):         # "the returned list": a bare tuple is the single-solution format
+                    events.append({"e": "raise", "what": "find_all_result_is_not_a_list_of_covers"})
+                    continue
                 sols = [list(s) for s in sol]
             else:
                 sols = [list(sol)]
@@ -55,6 +58,11 @@ CALLS = [
     {"find_all": True, "max_solutions": None, "max_iter": 3},
     {"find_all": False, "max_solutions": None, "max_iter": 2},
 ]
+
+
+# matrices without columns (and possibly without rows): the only exact cover is the empty selection
+DEGENERATE = [{"matrix": m, "prim": [], "calls": CALLS, "named": False, "tuples": False, "pass_empty_secondary": pes}
+              for m in ([], [[]], [[], []]) for pes in (False, True)]
 
 
 def gen_random(rng, n):
